@@ -318,6 +318,138 @@ def _export_jobs(atoms, names, K, modes, timeout, sample_every):
     return jobs
 
 
+# ---------------------------------------------------------------------------
+# arbitrary schedules of token-level and character-level calls (spec/TokSched.tla)
+
+SCHED_ATOMS = ['a', ' ', '\n', '{', '\\m ', '%', '$', '\\', '\\begin{e}']
+SCHED_OPS = ['Peek', 'Next', 'Chars', 'PeekChars', 'SkipSpace', 'MoveTo', 'MovePast', 'Home']
+SCHED_MC = """---- MODULE MC_TokSched ----
+EXTENDS TokSched
+AtomsDef == %(atoms)s
+CfgsDef == %(cfgs)s
+====
+"""
+SCHED_CFG = """CONSTANTS
+  VTok = "intended"
+  Atoms <- AtomsDef
+  Cfgs <- CfgsDef
+  K = %(K)d
+  Shard = %(shard)d
+  CfgNames = {%(names)s}
+  Modes = {"strict", "tolerant"}
+  MaxOps = %(maxops)d
+  Ops = {%(ops)s}
+SPECIFICATION Spec
+INVARIANT PeekThenNext
+INVARIANT ReadAdvances
+INVARIANT ReadAtPosition
+INVARIANT Emit
+PROPERTY PeekHasNoEffect
+CHECK_DEADLOCK FALSE
+"""
+
+
+def run_schedule_real(s, cfgname, mode, ops):
+    """Replay a schedule (list of op names) on a real LatexTokenReader; returns the observations in the model's shape."""
+    from pylatexenc.latexnodes import LatexTokenReader, LatexWalkerTokenParseError, LatexWalkerEndOfStream
+    ps = _state(cfgname)
+    r = LatexTokenReader(s, tolerant_parsing=(mode == 'tolerant'))
+    last = None
+    out = []
+
+    def tokobs(fn):
+        try:
+            t = fn(ps)
+        except LatexWalkerEndOfStream as e:
+            return None, dict(t='EOS', final=len(e.final_space or ''))
+        except LatexWalkerTokenParseError as e:
+            return None, dict(t='ERR', ph=pstate.proj_token(e.recovery_token_placeholder), resume=e.recovery_token_at_pos, pos=e.pos)
+        return t, pstate.proj_token(t)
+    for op in ops:
+        if op in ('Peek', 'Next'):
+            t, obs = tokobs(r.peek_token if op == 'Peek' else r.next_token)
+            if t is not None:
+                last = t
+        elif op == 'Chars':
+            try:
+                obs = dict(t='chars', c=codes(r.next_chars(1, ps)))
+            except LatexWalkerEndOfStream:
+                obs = dict(t='EOS')
+        elif op == 'PeekChars':
+            try:
+                obs = dict(t='chars', c=codes(r.peek_chars(2, ps)))
+            except LatexWalkerEndOfStream:
+                obs = dict(t='EOS')
+        elif op == 'SkipSpace':
+            sp = r.skip_space_chars(ps)
+            obs = dict(t='space', c=codes(sp[0]))
+        elif op == 'MoveTo':
+            r.move_to_token(last)
+            obs = dict(t='moved')
+        elif op == 'MovePast':
+            r.move_past_token(last)
+            obs = dict(t='moved')
+        elif op == 'Home':
+            r.move_to_pos_chars(0)
+            obs = dict(t='moved')
+        else:
+            raise common.MachineryError('unknown op ' + op)
+        out.append(dict(op=op, obs=obs, p1=r.cur_pos()))
+    return out
+
+
+class SchedConsumer(Consumer):
+    def feed(self, rec):
+        self.n += 1
+        s = uncodes(rec['s'])
+        ops = [h['op'] for h in rec['hist']]
+        case = dict(s=s, cfg=rec['cfg'], mode=rec['mode'], schedule=ops)
+        if len(set(ops)) >= 3:
+            self.nontrivial += 1
+        self.sample(case, every=49999)
+        st, val = guarded(run_schedule_real, s, rec['cfg'], rec['mode'], ops)
+        if st != 'ok':
+            self.violation('outcome', case, detail=dict(status=st, exc=repr(val)), sig=dict(clause='schedule-outcome', exc=type(val).__name__))
+            return
+        model = []
+        for h in rec['hist']:
+            o = dict(h['obs'])
+            if o.get('t') == 'ERR':
+                o.pop('what', None)
+            if o.get('t') == 'EOS' and h['op'] in ('Chars', 'PeekChars'):
+                o = dict(t='EOS')
+            model.append(dict(op=h['op'], obs=o, p1=h['p1']))
+        if val != model:
+            k = next(i for i in range(len(model)) if val[i] != model[i])
+            self.violation('schedule-observation-differs', dict(case, step=k + 1),
+                           detail=dict(model=model[k], impl=val[k], before=[m['op'] for m in model[:k]]),
+                           sig=dict(clause='schedule-observation-differs', op=model[k]['op']))
+            return
+        self.counters['same'] += 1
+
+
+def run_schedules(ctx):
+    quick = ctx.tier == 'quick'
+    names = ['default', 'math_dollar'] if quick else ['default', 'math_dollar', 'noctx', 'brackets', 'forbid']
+    maxops = 4 if quick else 5
+    K = 2
+    cfgs = ' @@ '.join('("%s" :> %s)' % (n, pstate.tla_record(CONFIGS[n])) for n in names)
+    mc = SCHED_MC % dict(atoms=pstate.atoms_tla(SCHED_ATOMS), cfgs=cfgs)
+    jobs = [dict(payload={}, main='MC_TokSched', mc=mc,
+                 cfg=SCHED_CFG % dict(K=K, shard=sh, names=', '.join('"%s"' % n for n in names), maxops=maxops,
+                                      ops=', '.join('"%s"' % o for o in SCHED_OPS)),
+                 tlc_kw=dict(timeout=6000, xmx='3g')) for sh in range(1, len(SCHED_ATOMS) + 1)]
+    m = common.run_shards(ctx, ('harness.c11', 'SchedConsumer'), jobs,
+                          what='TokSched: every schedule of %d calls out of %d kinds, strings <= %d atoms, %d configurations' % (
+                              maxops, len(SCHED_OPS), K, len(names)))
+    ctx.add_merged(m)
+    ctx.log('schedules: %d (string, configuration, mode, schedule of %d calls) replayed, %s' % (
+        m['n'], maxops, {k: v for k, v in m['counters'].items() if k == 'same'}))
+    ctx.notes['schedules'] = ('every sequence of %d calls over {peek_token, next_token, next_chars, peek_chars, skip_space_chars, '
+                              'move_to_token, move_past_token, move_to_pos_chars} on strings of <= %d atoms; exact observation '
+                              'equality with TokSched.tla' % (maxops, K))
+
+
 def run(ctx):
     quick = ctx.tier == 'quick'
     ctx.rule = ('TLC enumerates every string of <= K atoms over a 23-atom LaTeX alphabet (incl. CR and TAB) x parsing-state configurations '
@@ -352,6 +484,7 @@ def run(ctx):
         ctx.log('K=%d x %d cfgs: %d executions, %s' % (K, len(names), m['n'],
                 {k: v for k, v in m['counters'].items() if k in ('same', 'deviates')}))
         _validate(ctx, m)
+    run_schedules(ctx)
     run_repo_tests(ctx, None if not quick else ['test_latexnodes_tokenreader.py', 'test_latexnodes_nodescollector.py',
                                                 'test_latexnodes_parsers_delimited.py', 'test_2_latexwalker.py'])
     ctx.exhaustive = True
@@ -360,6 +493,15 @@ def run(ctx):
 
 def replay(case):
     c = case['case']
+    if 'schedule' in c:
+        obs = run_schedule_real(c['s'], c['cfg'], c['mode'], c['schedule'])
+        print('input', repr(c['s']), 'cfg', c['cfg'], 'mode', c['mode'])
+        for o in obs:
+            print('  ', o)
+        k = c.get('step', 1) - 1
+        exp = (case.get('detail') or {}).get('model')
+        print('TokSched.tla predicts for call %d:' % (k + 1), exp)
+        return exp is None or obs[k] == exp
     events, reads = drive_real(c['s'], c['cfg'], c['mode'])
     print('input', repr(c['s']), 'cfg', c['cfg'], 'mode', c['mode'])
     for e in events:
